@@ -3,8 +3,8 @@
 P=$1; PROP=$2; TIER=${3:-quick}
 cd /repo || exit 2
 git diff --quiet || { echo "/repo working tree not clean"; exit 2; }
-git apply "$P" || git apply -3 "$P" || { echo "patch does not apply"; git checkout -- .; exit 2; }
+git apply "$P" || git apply -3 "$P" || { echo "patch does not apply"; git reset -q --hard HEAD; exit 2; }
 /verif/check $PROP $TIER > /tmp/try_seed.out 2>&1; rc=$?
-git -C /repo checkout -- . ; git -C /repo reset -q
+git -C /repo reset -q --hard HEAD
 grep -E "VIOLATION|KNOWN-FINDING|class:|tier=" /tmp/try_seed.out | head -12
 echo "exit=$rc"
